@@ -12,7 +12,7 @@ rows = []
 assert not sh("git status --short", "/repo")[1].strip(), "/repo not clean"
 for sid in sorted(os.listdir(os.path.join(VERIF, "seeded"))):
     d = os.path.join(VERIF, "seeded", sid)
-    if not os.path.isdir(d) or (only and sid not in only):
+    if not os.path.isdir(d) or (only and sid not in only) or sid.startswith("neutral"):
         continue
     meta = json.load(open(os.path.join(d, "meta.json")))
     rc, out = sh(f"git apply {d}/patch.diff", "/repo")
